@@ -515,9 +515,8 @@ def runExitTrap (fuel : Nat) (s : St) : St × Res :=
     let s1 := s1.pop
     match r with
     | .outOfFuel => (s1, .outOfFuel)
-    | .break_ (.interrupt (some _)) =>
-      let r' := Res.break_ (.interrupt (some s1.status))
-      (s1.applyResult r', r')
+    -- an error with a status of its own (expansion, syntax): that status is the one propagated
+    | .break_ (.interrupt (some _)) => (s1.applyResult r, r)
     | .break_ (.interrupt none) => (s1, r)
     | r => ({ s1 with status := prev }.applyResult r, r)
 
